@@ -27,7 +27,7 @@ use winter_crypto::{
     hashers::{Blake3_192, Blake3_256, Rp62_248, Rp64_256, RpJive64_256, Sha3_256},
     DefaultRandomCoin, ElementHasher, MerkleTree, RandomCoin,
 };
-use winter_math::{fields::{f128, f62, f64}, ExtensibleField, FieldElement, StarkField};
+use winter_math::{fields::{f128, f62, f64, CubeExtension, QuadExtension}, ExtensibleField, FieldElement, StarkField};
 use winter_prover::{matrix::ColMatrix, AuxTraceWithMetadata, DefaultConstraintEvaluator, DefaultTraceLde, Prover, StarkDomain, Trace, TracePolyTable};
 use winter_verifier::{verify, AcceptableOptions, VerifierError};
 
@@ -615,14 +615,16 @@ fn stream2(r: &mut Rng, n: usize, t: &mut Tally) {
 
 // ------------------------------------------------------------------------------------------------ correspondence
 fn fhex<E: FieldElement>(e: E) -> String {
-    // base-field elements only (extension degree 1): canonical little-endian bytes -> big-endian hex
+    // one base-field element: canonical little-endian bytes -> big-endian hex
     let mut b = e.to_bytes();
     b.reverse();
     let s: String = b.iter().map(|x| format!("{:02x}", x)).collect();
     let s = s.trim_start_matches('0');
     if s.is_empty() { "0".into() } else { s.into() }
 }
-fn lst<E: FieldElement>(v: &[E]) -> String { if v.is_empty() { "-".into() } else { v.iter().map(|&e| fhex(e)).collect::<Vec<_>>().join(",") } }
+/// an element of the carrier E (base field or extension): its base-field coefficients c0_c1(_c2)
+fn ehex<E: FieldElement>(e: E) -> String { E::slice_as_base_elements(&[e]).iter().map(|&b| fhex(b)).collect::<Vec<_>>().join("_") }
+fn lst<E: FieldElement>(v: &[E]) -> String { if v.is_empty() { "-".into() } else { v.iter().map(|&e| ehex(e)).collect::<Vec<_>>().join(",") } }
 fn rows<E: FieldElement>(v: &[Vec<E>]) -> String { if v.is_empty() { "-".into() } else { v.iter().map(|r| lst(r)).collect::<Vec<_>>().join("|") } }
 fn le_hex_to_be(h: &str) -> String {
     let bytes: Vec<&str> = (0..h.len() / 2).map(|i| &h[2 * i..2 * i + 2]).collect();
@@ -652,7 +654,12 @@ fn parse_log(log: &[String]) -> CoinLog {
     for l in log {
         let w: Vec<&str> = l.split(' ').collect();
         if w.len() >= 3 && w[1] == "new" { seed = Some(w[2].trim_matches(|c| c == '[' || c == ']').split(',').filter(|x| !x.is_empty()).map(le_hex_to_be).collect()); }
-        if w.len() >= 5 && w[1] == "draw" && w[4] != "err" { draws.push(le_hex_to_be(w[4])); }
+        if w.len() >= 5 && w[1] == "draw" && w[4] != "err" {
+            // "draw deg<D> -> <bytes>": D base-field coefficients, each little-endian
+            let deg: usize = w[2].trim_start_matches("deg").parse().unwrap_or(1).max(1);
+            let k = w[4].len() / deg;
+            draws.push((0..deg).map(|i| le_hex_to_be(&w[4][i * k..(i + 1) * k])).collect::<Vec<_>>().join("_"));
+        }
         if w.len() >= 4 && w[1] == "check_leading_zeros" { pow = w[4].parse().ok(); }
         if w.len() >= 2 && w[1] == "draw_integers" {
             if let Some(p) = l.find("-> [") {
@@ -664,9 +671,14 @@ fn parse_log(log: &[String]) -> CoinLog {
     CoinLog { draws, positions, pow, seed }
 }
 
-/// one correspondence line: the statement (pi, acceptable options) + a (possibly perturbed) proof
-fn corr_line<B, H>(tag: &str, proof: Proof, pi: &PubInputs<B>, acc_opts: &[ProofOptions], out: &mut Vec<String>)
-where B: StarkField + ExtensibleField<2> + ExtensibleField<3> + 'static, H: ElementHasher<BaseField = B> + Send + Sync {
+fn field_name<B: StarkField>() -> &'static str {
+    if std::any::type_name::<B>().contains("f128") { "f128" } else if std::any::type_name::<B>().contains("f62") { "f62" } else { "f64" }
+}
+
+/// one correspondence line: the statement (pi, acceptable options) + a (possibly perturbed) proof.  E is the carrier of the
+/// proof's options (base field, quadratic or cubic extension); the trace may have an auxiliary segment.
+fn corr_line<B, E, H>(tag: &str, proof: Proof, pi: &PubInputs<B>, acc_opts: &[ProofOptions], out: &mut Vec<String>)
+where B: StarkField + ExtensibleField<2> + ExtensibleField<3> + 'static, E: FieldElement<BaseField = B>, H: ElementHasher<BaseField = B> + Send + Sync {
     let spec = &pi.spec;
     let bytes = proof.to_bytes();
     let popts = proof.options().clone();
@@ -682,41 +694,62 @@ where B: StarkField + ExtensibleField<2> + ExtensibleField<3> + 'static, H: Elem
     let air = FamAir::<B>::new(info.clone(), pi.clone(), popts.clone());
     let n = air.trace_length();
     let w = info.main_trace_width();
+    let aw = if info.is_multi_segment() { info.aux_segment_width() } else { 0 };
+    let nr = if info.is_multi_segment() { info.get_num_aux_segment_rand_elements() } else { 0 };
     let lde = air.lde_domain_size();
     let ncols = air.context().num_constraint_composition_columns();
     let nt = air.context().num_transition_constraints();
+    let ntm = air.context().num_main_transition_constraints();
     let na = air.context().num_assertions();
     let fri_opts = popts.to_fri_options();
+    // the coin outputs in the order in which verify() draws them: auxiliary random elements, transition coefficients (main, then
+    // auxiliary), boundary coefficients (main, then auxiliary), z, DEEP coefficients of the trace columns (main, then auxiliary),
+    // DEEP coefficients of the constraint columns
     let d = &log.draws;
     let take = |from: usize, k: usize| -> String { if d.len() >= from + k && k > 0 { d[from..from + k].join(",") } else { "-".into() } };
-    let tc = take(0, nt);
-    let bc = take(nt, na);
-    let z = if d.len() > nt + na { d[nt + na].clone() } else { "0".into() };
-    let dt = take(nt + na + 1, w);
-    let dc = take(nt + na + 1 + w, ncols);
+    let ar = take(0, nr);
+    let tc = take(nr, nt);
+    let bc = take(nr + nt, na);
+    let z = if d.len() > nr + nt + na { d[nr + nt + na].clone() } else { lst(&[E::ZERO]) };
+    let dt = take(nr + nt + na + 1, w + aw);
+    let dc = take(nr + nt + na + 1 + w + aw, ncols);
     let mut positions = log.positions.clone().unwrap_or_default();
     positions.sort_unstable();
     positions.dedup();
     // parsed proof
-    let (cur, next, evals) = match proof.ood_frame.clone().parse::<B>(w, 0, ncols) { Ok((f, e)) => (f.current_row().to_vec(), f.next_row().to_vec(), e), Err(_) => (vec![], vec![], vec![]) };
+    let (cur, next, acur, anext, evals) = match proof.ood_frame.clone().parse::<E>(w, aw, ncols) {
+        Ok((f, e)) => (f.current_row()[..w].to_vec(), f.next_row()[..w].to_vec(), f.current_row()[w..].to_vec(), f.next_row()[w..].to_vec(), e),
+        Err(_) => (vec![], vec![], vec![], vec![], vec![]) };
     let nq = proof.num_unique_queries as usize;
-    let (roots, croot) = match proof.commitments.clone().parse::<H>(1, fri_opts.num_fri_layers(lde)) { Ok((t, c, _)) => (t, Some(c)), Err(_) => (vec![], None) };
+    let (roots, croot) = match proof.commitments.clone().parse::<H>(info.num_segments(), fri_opts.num_fri_layers(lde)) { Ok((t, c, _)) => (t, Some(c)), Err(_) => (vec![], None) };
+    // Merkle authentication of the trace openings: every segment against its own root (read_queried_trace_states)
     let mut tauth = false;
     let mut qt: Vec<Vec<B>> = vec![];
     if let Ok((mp, table)) = proof.trace_queries[0].clone().parse::<H, B>(lde, nq, w) {
         qt = table.rows().map(|r| r.to_vec()).collect();
         if !roots.is_empty() && positions.len() == nq { tauth = MerkleTree::<H>::verify_batch(&roots[0], &positions, &mp).is_ok(); }
     }
+    let mut qa: Vec<Vec<E>> = vec![];
+    if aw > 0 {
+        let mut aauth = false;
+        if proof.trace_queries.len() > 1 {
+            if let Ok((mp, table)) = proof.trace_queries[1].clone().parse::<H, E>(lde, nq, aw) {
+                qa = table.rows().map(|r| r.to_vec()).collect();
+                if roots.len() > 1 && positions.len() == nq { aauth = MerkleTree::<H>::verify_batch(&roots[1], &positions, &mp).is_ok(); }
+            }
+        }
+        tauth = tauth && aauth;
+    }
     let mut cauth = false;
-    let mut qc: Vec<Vec<B>> = vec![];
-    if let Ok((mp, table)) = proof.constraint_queries.clone().parse::<H, B>(lde, nq, ncols) {
+    let mut qc: Vec<Vec<E>> = vec![];
+    if let Ok((mp, table)) = proof.constraint_queries.clone().parse::<H, E>(lde, nq, ncols) {
         qc = table.rows().map(|r| r.to_vec()).collect();
         if let Some(cr) = croot { if positions.len() == nq { cauth = MerkleTree::<H>::verify_batch(&cr, &positions, &mp).is_ok(); } }
     }
     // FRI layer-0 openings at the query positions (the values the DEEP evaluations are compared with first)
     let folding = fri_opts.folding_factor();
-    let mut fri0: Vec<B> = vec![];
-    if let Ok((layers, _)) = proof.fri_proof.clone().parse_layers::<H, B>(lde, folding) {
+    let mut fri0: Vec<E> = vec![];
+    if let Ok((layers, _)) = proof.fri_proof.clone().parse_layers::<H, E>(lde, folding) {
         if let Some(l0) = layers.first() {
             let row_len = lde / folding;
             let mut folded: Vec<usize> = vec![];
@@ -729,7 +762,8 @@ where B: StarkField + ExtensibleField<2> + ExtensibleField<3> + 'static, H: Elem
     let pow_ok = match log.pow { Some(v) => v >= popts.grinding_factor(), None => true };
     // boundary groups as the model wants them: sorted by (stride, first, column), grouped by (stride, first)
     let cc_dummy: Vec<B> = vec![B::ONE; na];
-    let bcs = air.get_boundary_constraints::<B>(None, &cc_dummy);
+    let rands_dummy: Vec<B> = vec![B::ONE; nr];
+    let bcs = air.get_boundary_constraints::<B>(if aw > 0 { Some(&rands_dummy[..]) } else { None }, &cc_dummy);
     let mut asr: Vec<(usize, usize, usize, usize, usize)> = spec.assertions.iter().enumerate().map(|(i, a)| match a {
         AKind::Single { col, step } => (0, *step, *col, 1, i),
         AKind::Periodic { col, first, stride } => (*stride, *first, *col, n / stride, i),
@@ -752,20 +786,32 @@ where B: StarkField + ExtensibleField<2> + ExtensibleField<3> + 'static, H: Elem
         }
         groups.push(format!("{:x}:{:x}:{}", first, m, cons.join(";")));
     }
+    // auxiliary boundary groups from the DEFINITION of the family (airfam.rs header): aux[0][0] = 1, aux[j][0] = 0 and, with
+    // aux_assert_last, aux[0][n-1] = aux_last_value(rands): single assertions, sorted by (step, column), grouped by step
+    let mut agroups: Vec<String> = vec![];
+    if aw > 0 {
+        let g0: Vec<String> = (0..aw).map(|j| format!("{:x}/1/{}", j, ehex(if j == 0 { E::ONE } else { E::ZERO }))).collect();
+        agroups.push(format!("0:1:{}", g0.join(";")));
+        if spec.aux_assert_last {
+            // the random elements as the verifier drew them (parsed back from the coin log)
+            let last = if nr == 0 { lst(&[E::ONE + E::ONE]) } else if d.len() >= nr { add_one::<B>(&d[0]) } else { lst(&[E::ZERO]) };
+            agroups.push(format!("{:x}:1:0/1/{}", n - 1, last));
+        }
+    }
     // family columns (Gallina twin fam_trans): hold / degree / periodic index / k  (k as in Spec::small_consts)
     let mut kr = Rng::new(spec.seed ^ 0xABCD);
     let ks: Vec<B> = (0..spec.width).map(|_| B::from((kr.below(5) + 1) as u32)).collect();
     let fam: Vec<String> = (0..spec.width).map(|c| format!("{}/{:x}/{}/{}", spec.hold[c] as u8, spec.degs[c], match spec.per_index(c) { Some(i) => format!("{:x}", i), None => "-".into() }, fhex(ks[c]))).collect();
     let pers: Vec<Vec<B>> = air.get_periodic_column_polys();
-    let fname = if std::any::type_name::<B>().contains("f128") { "f128" } else if std::any::type_name::<B>().contains("f62") { "f62" } else { "f64" };
+    let fname = field_name::<B>();
     let case = format!(
-        "verify {} tag={} emod={} acc={} fric=1 pow={} tauth={} cauth={} fri0={} n={:x} k={:x} g={} glde={} off={} per={} groups={} fam={} tc={} bc={} z={} dt={} dc={} pos={} pmod={} popts={} cur={} next={} evals={} qt={} qc={}",
-        fname, tag, modulus_hex::<B>(), acc_opts.iter().map(opts_words).collect::<Vec<_>>().join("|"), pow_ok as u8, tauth as u8, cauth as u8, lst(&fri0),
+        "verify {} tag={} ext={} aw={:x} ntm={:x} emod={} acc={} fric=1 pow={} tauth={} cauth={} fri0={} n={:x} k={:x} g={} glde={} off={} per={} groups={} agroups={} fam={} ar={} tc={} bc={} z={} dt={} dc={} pos={} pmod={} popts={} cur={} next={} acur={} anext={} evals={} qt={} qa={} qc={}",
+        fname, tag, E::EXTENSION_DEGREE, aw, ntm, modulus_hex::<B>(), acc_opts.iter().map(opts_words).collect::<Vec<_>>().join("|"), pow_ok as u8, tauth as u8, cauth as u8, lst(&fri0),
         n, spec.exemptions, fhex(air.trace_domain_generator()), fhex(air.lde_domain_generator()), fhex(air.domain_offset()),
-        rows(&pers), if groups.is_empty() { "-".into() } else { groups.join("!") }, fam.join(";"),
-        tc, bc, z, dt, dc, if positions.is_empty() { "-".into() } else { positions.iter().map(|p| format!("{:x}", p)).collect::<Vec<_>>().join(",") },
+        rows(&pers), if groups.is_empty() { "-".into() } else { groups.join("!") }, if agroups.is_empty() { "-".into() } else { agroups.join("!") }, fam.join(";"),
+        ar, tc, bc, z, dt, dc, if positions.is_empty() { "-".into() } else { positions.iter().map(|p| format!("{:x}", p)).collect::<Vec<_>>().join(",") },
         { let mut b = proof.context.field_modulus_bytes().to_vec(); b.reverse(); let s: String = b.iter().map(|x| format!("{:02x}", x)).collect(); s.trim_start_matches('0').to_string() },
-        opts_words(&popts), lst(&cur), lst(&next), lst(&evals), rows(&qt), rows(&qc));
+        opts_words(&popts), lst(&cur), lst(&next), lst(&acur), lst(&anext), lst(&evals), rows(&qt), rows(&qa), rows(&qc));
     // on acceptance the DEEP evaluations equal the FRI layer-0 openings (first check of FriVerifier::verify)
     if verdict == "deser" || verdict == "panic" || verdict == "other" || verdict == "coin" || verdict == "ext" { return; } // the model starts from a parsed proof
     if tag == "honest" || tag == "options-claimed-other" {
@@ -784,8 +830,18 @@ where B: StarkField + ExtensibleField<2> + ExtensibleField<3> + 'static, H: Elem
     out.push(format!("{} => {}", case, res_str));
 }
 
-fn corr_one<B, H>(r: &mut Rng, spec: &Spec, o: &Opts, out: &mut Vec<String>) -> Result<(), String>
-where B: StarkField + ExtensibleField<2> + ExtensibleField<3> + 'static, H: ElementHasher<BaseField = B> + Send + Sync {
+/// `c0_c1(_c2)` (hex) + ONE: aux_last_value(rands) = rands[0] + 1, computed on the logged draw, independently of airfam.rs
+fn add_one<B: StarkField>(e: &str) -> String {
+    let mut parts: Vec<String> = e.split('_').map(|s| s.to_string()).collect();
+    let v = u128::from_str_radix(&parts[0], 16).unwrap_or(0);
+    let mut mb = B::get_modulus_le_bytes(); mb.resize(16, 0);
+    let m = u128::from_le_bytes(mb[..16].try_into().unwrap());
+    parts[0] = format!("{:x}", if v + 1 == m { 0 } else { v + 1 });
+    parts.join("_")
+}
+
+fn corr_one<B, E, H>(r: &mut Rng, spec: &Spec, o: &Opts, out: &mut Vec<String>) -> Result<(), String>
+where B: StarkField + ExtensibleField<2> + ExtensibleField<3> + 'static, E: FieldElement<BaseField = B>, H: ElementHasher<BaseField = B> + Send + Sync {
     let opts = make_opts(o).ok_or("options")?;
     let cols = gen_main::<B>(spec);
     let avals = assertion_values(spec, &cols);
@@ -797,12 +853,13 @@ where B: StarkField + ExtensibleField<2> + ExtensibleField<3> + 'static, H: Elem
     let p = || Proof::from_bytes(&bytes).unwrap();
     let air = FamAir::<B>::new(proof.trace_info().clone(), pi.clone(), opts.clone());
     let w = spec.width;
+    let aw = spec.aux_width;
     let lde = air.lde_domain_size();
     let ncols = air.context().num_constraint_composition_columns();
     let nq = proof.num_unique_queries as usize;
     let accv = vec![opts.clone()];
     // 0. honest
-    corr_line::<B, H>("honest", p(), &pi, &accv, out);
+    corr_line::<B, E, H>("honest", p(), &pi, &accv, out);
     // the model's reference validity predicate against the harness oracle: honest trace and corrupted cells
     {
         let n = spec.n();
@@ -810,7 +867,7 @@ where B: StarkField + ExtensibleField<2> + ExtensibleField<3> + 'static, H: Elem
         let mut kr = Rng::new(spec.seed ^ 0xABCD);
         let ks: Vec<B> = (0..spec.width).map(|_| B::from((kr.below(5) + 1) as u32)).collect();
         let fam: Vec<String> = (0..spec.width).map(|c| format!("{}/{:x}/{}/{}", spec.hold[c] as u8, spec.degs[c], match spec.per_index(c) { Some(i) => format!("{:x}", i), None => "-".into() }, fhex(ks[c]))).collect();
-        let fname = if std::any::type_name::<B>().contains("f128") { "f128" } else if std::any::type_name::<B>().contains("f62") { "f62" } else { "f64" };
+        let fname = field_name::<B>();
         let steps = [0usize, n - k - 1, n - k, (n - k + 1).min(n - 1), n - 1, 1 + r.below((n - 2) as u64) as usize, usize::MAX];
         for &st in steps.iter() {
             let mut cols = gen_main::<B>(spec);
@@ -829,27 +886,35 @@ where B: StarkField + ExtensibleField<2> + ExtensibleField<3> + 'static, H: Elem
                 rows(&spec.periodic_values::<B>()), asr.join(";"), rows(&trows), is_valid(spec, &cols, &published) as u8));
         }
     }
-    // 1./2. out-of-domain frame
-    let (frame, evals) = p().ood_frame.parse::<B>(w, 0, ncols).map_err(|e| e.to_string())?;
-    let rebuild = |cur: Vec<B>, next: Vec<B>, ev: Vec<B>| -> OodFrame {
+    // 1./2. out-of-domain frame (main columns first, then auxiliary columns)
+    let (frame, evals) = p().ood_frame.parse::<E>(w, aw, ncols).map_err(|e| e.to_string())?;
+    let rebuild = |cur: Vec<E>, next: Vec<E>, ev: Vec<E>| -> OodFrame {
         let mut f = OodFrame::default();
-        f.set_trace_states::<B, H>(&TraceOodFrame::new(cur, next, w, None));
+        f.set_trace_states::<E, H>(&TraceOodFrame::new(cur, next, w, None));
         f.set_constraint_evaluations(&ev);
         f
     };
     {
         let (mut cur, mut next) = (frame.current_row().to_vec(), frame.next_row().to_vec());
         let c = r.below(w as u64) as usize;
-        let tag = if r.chance(1, 2) { cur[c] += B::ONE; "ood-trace-cur" } else { next[c] -= B::ONE; "ood-trace-next" };
+        let tag = if r.chance(1, 2) { cur[c] += E::ONE; "ood-trace-cur" } else { next[c] -= E::ONE; "ood-trace-next" };
         let mut pr = p(); pr.ood_frame = rebuild(cur, next, evals.clone());
-        corr_line::<B, H>(tag, pr, &pi, &accv, out);
+        corr_line::<B, E, H>(tag, pr, &pi, &accv, out);
+    }
+    if aw > 0 {
+        // an out-of-domain value of an AUXILIARY column
+        let (mut cur, mut next) = (frame.current_row().to_vec(), frame.next_row().to_vec());
+        let c = w + r.below(aw as u64) as usize;
+        let tag = if r.chance(1, 2) { cur[c] += E::ONE; "ood-aux-cur" } else { next[c] -= E::ONE; "ood-aux-next" };
+        let mut pr = p(); pr.ood_frame = rebuild(cur, next, evals.clone());
+        corr_line::<B, E, H>(tag, pr, &pi, &accv, out);
     }
     {
         let mut ev = evals.clone();
         let c = r.below(ev.len() as u64) as usize;
-        ev[c] += B::from(r.next_u64() as u32) + B::ONE;
+        ev[c] += E::from(B::from(r.next_u64() as u32)) + E::ONE;
         let mut pr = p(); pr.ood_frame = rebuild(frame.current_row().to_vec(), frame.next_row().to_vec(), ev);
-        corr_line::<B, H>("ood-constraint-eval", pr, &pi, &accv, out);
+        corr_line::<B, E, H>("ood-constraint-eval", pr, &pi, &accv, out);
     }
     // 3. a queried trace value
     {
@@ -858,24 +923,33 @@ where B: StarkField + ExtensibleField<2> + ExtensibleField<3> + 'static, H: Elem
         let (i, j) = (r.below(rws.len() as u64) as usize, r.below(w as u64) as usize);
         rws[i][j] += B::ONE;
         let mut pr = p(); pr.trace_queries[0] = Queries::new::<H, B>(mp, rws);
-        corr_line::<B, H>("queried-trace-value", pr, &pi, &accv, out);
+        corr_line::<B, E, H>("queried-trace-value", pr, &pi, &accv, out);
+    }
+    if aw > 0 {
+        // a queried value of an AUXILIARY column
+        let (mp, table) = p().trace_queries[1].clone().parse::<H, E>(lde, nq, aw).map_err(|e| e.to_string())?;
+        let mut rws: Vec<Vec<E>> = table.rows().map(|x| x.to_vec()).collect();
+        let (i, j) = (r.below(rws.len() as u64) as usize, r.below(aw as u64) as usize);
+        rws[i][j] += E::ONE;
+        let mut pr = p(); pr.trace_queries[1] = Queries::new::<H, E>(mp, rws);
+        corr_line::<B, E, H>("queried-aux-value", pr, &pi, &accv, out);
     }
     // 4. a queried constraint value
     {
-        let (mp, table) = p().constraint_queries.clone().parse::<H, B>(lde, nq, ncols).map_err(|e| e.to_string())?;
-        let mut rws: Vec<Vec<B>> = table.rows().map(|x| x.to_vec()).collect();
+        let (mp, table) = p().constraint_queries.clone().parse::<H, E>(lde, nq, ncols).map_err(|e| e.to_string())?;
+        let mut rws: Vec<Vec<E>> = table.rows().map(|x| x.to_vec()).collect();
         let (i, j) = (r.below(rws.len() as u64) as usize, r.below(ncols as u64) as usize);
-        rws[i][j] -= B::ONE;
-        let mut pr = p(); pr.constraint_queries = Queries::new::<H, B>(mp, rws);
-        corr_line::<B, H>("queried-constraint-value", pr, &pi, &accv, out);
+        rws[i][j] -= E::ONE;
+        let mut pr = p(); pr.constraint_queries = Queries::new::<H, E>(mp, rws);
+        corr_line::<B, E, H>("queried-constraint-value", pr, &pi, &accv, out);
     }
     // 5. options: expected other / claimed other
     {
         let o2 = Opts { q: o.q + 1, ..o.clone() };
         if let Some(v) = make_opts(&o2) {
-            corr_line::<B, H>("options-expected-other", p(), &pi, &[v.clone()], out);
+            corr_line::<B, E, H>("options-expected-other", p(), &pi, &[v.clone()], out);
             let mut pr = p(); pr.context = Context::new::<B>(pr.context.trace_info().clone(), v.clone());
-            corr_line::<B, H>("options-claimed-other", pr, &pi, &[v, opts.clone()], out);
+            corr_line::<B, E, H>("options-claimed-other", pr, &pi, &[v, opts.clone()], out);
         }
     }
     // 6. field modulus claimed by the proof
@@ -883,12 +957,12 @@ where B: StarkField + ExtensibleField<2> + ExtensibleField<3> + 'static, H: Elem
         let mut pr = p();
         let ti = pr.context.trace_info().clone();
         pr.context = if std::any::type_name::<B>().contains("f64") { Context::new::<B62>(ti, opts.clone()) } else { Context::new::<B64>(ti, opts.clone()) };
-        corr_line::<B, H>("field-modulus", pr, &pi, &accv, out);
+        corr_line::<B, E, H>("field-modulus", pr, &pi, &accv, out);
     }
     // 7. proof-of-work nonce
     if o.grind > 0 {
         let mut pr = p(); pr.pow_nonce = pr.pow_nonce.wrapping_add(1 + r.below(1000));
-        corr_line::<B, H>("pow-nonce", pr, &pi, &accv, out);
+        corr_line::<B, E, H>("pow-nonce", pr, &pi, &accv, out);
     }
     // 8. one assertion value of the statement
     {
@@ -896,15 +970,28 @@ where B: StarkField + ExtensibleField<2> + ExtensibleField<3> + 'static, H: Elem
         let i = r.below(av.len() as u64) as usize;
         let j = r.below(av[i].len() as u64) as usize;
         av[i][j] += B::ONE;
-        corr_line::<B, H>("assertion-value", p(), &PubInputs { spec: spec.clone(), avals: av }, &accv, out);
+        corr_line::<B, E, H>("assertion-value", p(), &PubInputs { spec: spec.clone(), avals: av }, &accv, out);
     }
     // 9. exemptions of the statement
     {
         let mut s = spec.clone(); s.exemptions += 1;
-        if ctx_accepts(&s, &opts) { corr_line::<B, H>("exemptions+1", p(), &PubInputs { spec: s, avals: avals.clone() }, &accv, out); }
+        if ctx_accepts(&s, &opts) { corr_line::<B, E, H>("exemptions+1", p(), &PubInputs { spec: s, avals: avals.clone() }, &accv, out); }
     }
     Ok(())
 }
+
+fn corr_ext<B, H>(r: &mut Rng, spec: &Spec, o: &Opts, out: &mut Vec<String>) -> Result<(), String>
+where B: StarkField + ExtensibleField<2> + ExtensibleField<3> + 'static, H: ElementHasher<BaseField = B> + Send + Sync {
+    match o.ext {
+        1 => corr_one::<B, B, H>(r, spec, o, out),
+        2 => corr_one::<B, QuadExtension<B>, H>(r, spec, o, out),
+        _ => corr_one::<B, CubeExtension<B>, H>(r, spec, o, out),
+    }
+}
+
+/// (extension degree, auxiliary segment: 0 = none, 1 = 1..3 columns next to 3..5 main columns, 2 = aux-heavy: ONE main column
+/// and 2..3 auxiliary columns): every combination occurs within twelve base proofs
+const CORR_SCHEDULE: [(u8, u8); 12] = [(1, 0), (1, 1), (2, 0), (1, 2), (2, 1), (1, 0), (3, 0), (2, 2), (1, 0), (3, 1), (1, 1), (3, 2)];
 
 fn corr(r: &mut Rng, n: usize) -> Vec<String> {
     let mut out = vec![];
@@ -912,23 +999,28 @@ fn corr(r: &mut Rng, n: usize) -> Vec<String> {
     let mut done = 0;
     while done < n && i < 20 * n + 20 {
         i += 1;
+        let (ext, auxk) = CORR_SCHEDULE[done % CORR_SCHEDULE.len()];
         // the extracted field arithmetic (inductive Z, Fermat inversion) is slow for 128-bit values: f128 once in six
-        let field = ["f64", "f62", "f64", "f128", "f62", "f64"][i % 6];
+        let mut field = ["f64", "f62", "f64", "f128", "f62", "f64"][i % 6];
+        if !ext_supported(field, ext) { field = "f64"; }
         let blowup = *r.pick(&[2usize, 4, 8]);
-        let mut spec = if r.chance(1, 3) { random_spec(r, 5, blowup) } else { structured_spec(r, blowup.max(2), false, 1) };
-        spec.aux_width = 0; spec.aux_rands = 0;
+        let mut spec = match auxk {
+            2 => { let al = r.chance(1, 2); aux_heavy_spec(r, blowup.max(2), if al { 2 } else { 1 }, al) }
+            1 => structured_spec(r, blowup.max(2), true, 1),
+            _ => { let mut s = if r.chance(1, 3) { random_spec(r, 5, blowup) } else { structured_spec(r, blowup.max(2), false, 1) }; s.aux_width = 0; s.aux_rands = 0; s }
+        };
         for d in spec.degs.iter_mut() { *d = (*d).min(blowup as u32).max(1); }
         let lde = spec.n() * blowup;
         // at least one FRI layer so that layer-0 openings exist
         let (fold, rem) = pick_fri(r, lde, blowup);
-        let o = Opts { q: 1 + r.below(8) as usize, blowup, grind: *r.pick(&[0u32, 0, 4]), ext: 1, fold, rem };
+        let o = Opts { q: 1 + r.below(8) as usize, blowup, grind: *r.pick(&[0u32, 0, 4]), ext, fold, rem };
         let po = match make_opts(&o) { Some(p) => p, None => continue };
         if !fri_wellformed(lde, blowup, fold, rem) || o.q >= lde || !ctx_accepts(&spec, &po) || !admissible(&spec, blowup) { continue; }
         if po.to_fri_options().num_fri_layers(lde) == 0 { continue; }
         let res = match field {
-            "f64" => if i % 2 == 0 { corr_one::<B64, Blake3_256<B64>>(r, &spec, &o, &mut out) } else { corr_one::<B64, Rp64_256>(r, &spec, &o, &mut out) },
-            "f128" => corr_one::<B128, Blake3_256<B128>>(r, &spec, &o, &mut out),
-            _ => corr_one::<B62, Sha3_256<B62>>(r, &spec, &o, &mut out),
+            "f64" => if i % 2 == 0 { corr_ext::<B64, Blake3_256<B64>>(r, &spec, &o, &mut out) } else { corr_ext::<B64, Rp64_256>(r, &spec, &o, &mut out) },
+            "f128" => corr_ext::<B128, Blake3_256<B128>>(r, &spec, &o, &mut out),
+            _ => corr_ext::<B62, Sha3_256<B62>>(r, &spec, &o, &mut out),
         };
         if res.is_ok() { done += 1; }
     }
